@@ -78,6 +78,12 @@ fn build(start: (u8, u8)) -> Sys {
         .collect();
     let pkeys: Vec<PrefixId> = PKEYS.iter().map(|p| xot.add_prefix(p)).collect();
     let pvals: Vec<NamespaceId> = PVALS.iter().map(|u| xot.add_namespace(u)).collect();
+    // the element is attached: its parent declares p -> X and q -> Y, so that a binding "already in scope"
+    // and a declaration "on the element" are different things
+    let parent = xot.new_element(en);
+    xot.set_namespace(parent, pkeys[1], pvals[0]);
+    xot.set_namespace(parent, pkeys[2], pvals[1]);
+    xot.append(parent, e).unwrap();
     let mut s = Sys { xot, e, other, akeys, pkeys, pvals, attrs: vec![], nss: vec![], oattrs: vec![], onss: vec![] };
     for i in 0..start.0 {
         // namespace nodes p, q (so that {X}c can be serialised when p is bound to X)
@@ -456,8 +462,18 @@ impl Sys {
             match read_fragment(&text) {
                 Read::WellFormed(d) => {
                     let el = &d.ch[0];
-                    let got_ns: Vec<(String, String)> = el.nss.iter().map(|n| (n.name.clone(), n.ns.clone())).collect();
                     let exp_ns: Vec<(String, String)> = self.nss.iter().map(|x| (PKEYS[x.key as usize].to_string(), x.val.clone())).collect();
+                    // the element is serialised in place: bindings inherited from the parent (p -> X, q -> Y)
+                    // that the element does not redeclare may be written first, in any order
+                    let inherited = [("p".to_string(), X.to_string()), ("q".to_string(), Y.to_string())];
+                    let mut got_ns: Vec<(String, String)> = el.nss.iter().map(|n| (n.name.clone(), n.ns.clone())).collect();
+                    while let Some(first) = got_ns.first() {
+                        if inherited.contains(first) && !exp_ns.iter().any(|e| e.0 == first.0) {
+                            got_ns.remove(0);
+                        } else {
+                            break;
+                        }
+                    }
                     if got_ns != exp_ns {
                         out.push(("to_string|declaration-order".into(), format!("{:?}: declarations {:?}, map order {:?}", text, got_ns, exp_ns)));
                     }
